@@ -82,6 +82,32 @@ def gen_lean():
     raise Infra("gen_lean.py failed:\n" + out)
 
 
+def gen_deps(modules):
+    """the generated files (Gen/<X>.lean) that the given Lean modules import, directly or not"""
+    # the property's theorems and the driver entries of the same property (Clikit.Props.Cxx -> Clikit.Drv.Cxx)
+    seen, gen = set(), set()
+    todo = list(modules) + [m.replace("Clikit.Props.", "Clikit.Drv.") for m in modules if m.startswith("Clikit.Props.")]
+    while todo:
+        m = todo.pop()
+        if m in seen or not m.startswith("Clikit"):
+            continue
+        seen.add(m)
+        if m.startswith("Clikit.Gen."):
+            gen.add(m.split(".")[-1] + ".lean")
+        path = os.path.join(LEAN, *m.split(".")) + ".lean"
+        try:
+            with open(path, encoding="utf-8") as f:
+                for line in f:
+                    mm = re.match(r"\s*import\s+([\w.]+)", line)
+                    if mm:
+                        todo.append(mm.group(1))
+                    elif line.strip() and not line.startswith(("--", "/-", "import")) and "import" not in line:
+                        break
+        except OSError:
+            pass
+    return gen
+
+
 def lake_build(targets, timeout=3000):
     with LakeLock():
         rc, out = run(["lake", "build"] + list(targets), cwd=LEAN, timeout=timeout)
@@ -290,6 +316,23 @@ class Check(object):
         self.cov["gen"] = text[:2000]
         if not ok:
             self.broken.append("tie-A translator: " + text)
+            return ok
+        # Parts of the generated Lean files that could not be read from the current source were filled in from
+        # tools/gen_frozen (the definitions generated from the tree the checks were validated on).  That concerns this
+        # property only if its theorems or model import such a part; then the theorems are checked against the frozen
+        # definitions and the tie to the current code is carried by the correspondence run (the second tie of the
+        # method), which explores more because the source differs (see step_corr).
+        try:
+            summary = json.loads(text[text.index("GEN ") + 4:].splitlines()[0])
+        except ValueError:
+            summary = {}
+        broken_parts = summary.get("broken_parts") or {}
+        mine = sorted(set(broken_parts) & gen_deps(self.mod.LEAN_MODULES)) if broken_parts else []
+        self.cov["tie_a_frozen_parts"] = {f: broken_parts[f][:300] for f in mine}
+        self.cov["tie_a_frozen_parts_elsewhere"] = sorted(set(broken_parts) - set(mine))
+        for f in mine:
+            self.notes.append("tie A: Gen/%s could not be regenerated from the current source (%s); frozen definitions "
+                              "used, the correspondence carries the tie" % (f, broken_parts[f][:200]))
         return ok
 
     def step_prove(self):
@@ -428,7 +471,9 @@ class Check(object):
                 if time.time() > deadline:
                     truncated = True
                     break
-                if len(self.failing) > 20 or len(self.disagreements) >= 50:
+                # many model/implementation disagreements do not end the run: the oracle keeps judging the rest of
+                # the stream (a failing input may lie in a later family of cases); only failing inputs end it early
+                if len(self.failing) > 20:
                     break
         if batch:
             flush(batch)
